@@ -3,6 +3,7 @@ package main
 // govc: verification-condition generator and checker for the contracts of ja7ad/otp.
 
 import (
+	"runtime/debug"
 	"encoding/hex"
 	"encoding/json"
 	"flag"
@@ -130,6 +131,9 @@ func main() {
 			defer func() {
 				if r := recover(); r != nil {
 					u.errors = append(u.errors, fmt.Sprintf("%s: engine panic: %v", fx.name, r))
+					if os.Getenv("GOVC_DEBUG") != "" {
+						debug.PrintStack()
+					}
 				}
 			}()
 			fx.computeLabels()
